@@ -7,11 +7,32 @@ let e_fl = function
   | FInf -> A "INF"
   | FFin n -> e_n n
 
+(* exact_card / clause_card / card: the answer is the one of the MEMOISED twins (Model/CountFast.v: per-node cache, every node
+   computed once, like the Rust) whenever the operand passes the well-formedness check, else the one of the un-memoised reference
+   recursions of Model/Count.v; this dispatch is itself extracted code (`*_auto`, with wfb_fast = wfb), proved equal to the
+   reference functions on ALL inputs (Proofs/CountFast.v *_auto_eq, wfb_fast_eq; for wf operands *_fast_eq).  The reference
+   recursions are exponential in the presence of sharing, so they are re-run alongside only on small operands (at most 60 nodes
+   and at most 16 variables or 24 decision nodes, i.e. a few thousand paths at worst); there a difference between the dispatching function, the
+   memoised twin (wf operands) and the reference, or between wfb_fast and wfb, contradicts the theorems: a
+   model/extraction/driver bug, reported as a hard machinery error, never as a finding. *)
+let small (b : bdd) : bool =
+  not (Ops_core.longer_than b 60) && (not (Ops_core.longer_than b 26) || int_of_n (nvars b) <= 16)
+let counted (auto : bdd -> 'a) (fast : bdd -> 'a) (reference : bdd -> 'a) (b : bdd) : 'a =
+  let r = auto b in
+  if small b then begin
+    let w = wfb b in
+    if wfb_fast b <> w || r <> reference b || (w && fast b <> r) then raise (Bad "count-models-disagree")
+  end;
+  r
+let exact_card (b : bdd) : n = counted exact_cardinality_auto exact_cardinality_fast exact_cardinality b
+let clause_card (b : bdd) : n = counted exact_clause_cardinality_auto exact_clause_cardinality_fast exact_clause_cardinality b
+let card (b : bdd) : fl = counted cardinality_f64_auto cardinality_f64_fast cardinality_f64 b
+
 let run (c : s list) : s option =
   match c with
-  | A "exact_card" :: x :: _ -> Some (e_n (exact_cardinality (d_bdd x)))
-  | A "clause_card" :: x :: _ -> Some (e_n (exact_clause_cardinality (d_bdd x)))
-  | A "card" :: x :: _ -> Some (e_fl (cardinality_f64 (d_bdd x)))
+  | A "exact_card" :: x :: _ -> Some (e_n (exact_card (d_bdd x)))
+  | A "clause_card" :: x :: _ -> Some (e_n (clause_card (d_bdd x)))
+  | A "card" :: x :: _ -> Some (e_fl (card (d_bdd x)))
   | A "support" :: x :: _ -> Some (e_list e_n (support_set (d_bdd x)))
   | A "size_per_var" :: x :: _ -> Some (e_list (e_pair e_n e_n) (size_per_variable (d_bdd x)))
   | A "path_count" :: x :: _ -> Some (e_int (List.length (paths (d_bdd x))))
